@@ -4,7 +4,7 @@ queue refuses the push that would exceed its capacity; ring cursors are stored o
 Sequence equality with Vec/VecDeque and drop counts are NOT decided."""
 from vlib import fixtures
 from props import _refusal_common as rc
-from rules import wrap, shrink, order
+from rules import wrap, shrink, order, parallel, sibling
 from vlib.mir import Fn
 from vlib.run import Broken
 
@@ -18,11 +18,18 @@ FILES = ['src/containers/fast_vec.rs', 'src/containers/specialized/valvec32.rs',
 def run(ctx):
     fx = ctx.facts("default")
     order.use_facts(fx)
-    fixtures.run(ctx, ['state', 'taint', 'wrap', 'emptyrange'])
+    fixtures.run(ctx, ['state', 'taint', 'wrap', 'emptyrange', 'clear', 'batch'])
     # ring cursors are only ever stored wrapped; drop loops of shrinking operations are not empty by construction
     wrap.run(ctx, fx, 'src/containers/specialized/circular_queue.rs', 'containers::specialized::circular_queue::AutoGrowCircularQueue')
     ctx.floor('R-WRAP.stores', 5)
     shrink.empty_range(ctx, fx, FILES)
+    # clear() empties every collection field of the container
+    parallel.clear_all(ctx, fx, FILES)
+    ctx.floor('R-CLEAR.structs', 5)
+    # bulk operations update at least the state the single-element operations update
+    sibling.batch_effects(ctx, fx, FILES, pairs=(("push_back", "push_bulk"), ("pop_front", "pop_bulk"), ("push", "push_n_copy"),
+                                                 ("push", "extend_from_slice")))
+    ctx.floor('R-SIBLING.batch.pairs', 3)
     # MmapVec grows by re-reading its file: the live mapping is written back first, unconditionally
     rec = fx.raw('memory::mmap_vec::MmapVec::<T>::resize_to_capacity')
     if rec is None:
